@@ -16,7 +16,7 @@ import (
 // fetch, tells whether the pointer is on an existing record afterwards, and "if the cursor is closed, then an
 // error is occurred"; COUNT is the number of rows of the cursor's view (no view while it is closed: an error).
 //
-// Enumerated: a chain of 1 (thorough: 2, and 3 over a reduced alphabet) nested blocks below the global one, every
+// Enumerated: a chain of 1 (and 2 over a reduced alphabet; thorough: 2, and 3 reduced) nested blocks below the global one, every
 // block of every syntactic form (IF, ELSE, CASE, WHILE, WHILE VAR IN, function body), every level - the global one
 // included - with the cursor c in each of six states (not declared / declared and never opened / opened, fetched
 // and closed again / open, not fetched / open, pointer on a record / open, pointer behind the last record), the
@@ -30,7 +30,7 @@ import (
 // a cursor of a block that has ended; no level declares c: "undeclared cursor". Not compared: a name that would
 // have to be found across a function boundary (the manual does not say what a function body sees of its caller).
 func init() {
-	core.Extend("C15", "family curstatus: cursor c declared in up to 2 (thorough: 3-4) nested levels (global, IF / ELSE / CASE / WHILE / WHILE VAR IN / function body), each level's cursor in one of 6 states "+
+	core.Extend("C15", "family curstatus: cursor c declared in up to 2 nested levels, 3 over a reduced alphabet (thorough: 3, 4 reduced; global, IF / ELSE / CASE / WHILE / WHILE VAR IN / function body), each level's cursor in one of 6 states "+
 		"(undeclared, never opened, closed again, open unfetched, on a record, behind the last record) x COUNT / IS [NOT] IN RANGE / IS [NOT] OPEN / FETCH x observing level (innermost block, enclosing blocks after the inner ones ended) x PRINT / VAR; "+
 		"oracle: answered by the innermost declaration visible at the observing level in its own state (closed: error for COUNT / IN RANGE / FETCH, FALSE for IS OPEN), outer cursors unmodified", c15CurStatusRun)
 }
